@@ -150,7 +150,7 @@ Section DeriveProofs.
   Notation updates_for := (updates_for asn_of simple_name aggr_name sign).
   Notation create_updates := (create_updates asn_of res_of simple_name aggr_name sign).
   Notation relevant := (relevant res_of).
-  Notation renewal := (renewal simple_name aggr_name sign).
+  Notation renewal_pinned := (renewal_pinned simple_name aggr_name sign).
   Notation roa_ok := (roa_ok asn_of).
 
   (** A payload is carried by a simple or an aggregate ROA of the class. *)
@@ -387,8 +387,8 @@ Section DeriveProofs.
     intro p. rewrite E. unfold RoaDerive.relevant. apply filter_In.
   Qed.
 
-  (** Renewal (key-roll activation, rc.rs:581-592) keeps the invariant and the payloads; it does NOT look at the
-      certificate of the key it renews under. *)
+  (** The renewal of the originally pinned tree (before the repair of F04c) keeps the invariant and the payloads; it
+      does NOT look at the certificate of the key it renews under. Regression witness. *)
   Lemma ins_all_renew {V} (f : N -> V -> V) (l : list (N * V)) k : NoDup (map fst l) ->
     aget k (ins_all (map (fun '(k, v) => (k, f k v)) l) l) = match aget k l with Some v => Some (f k v) | None => None end.
   Proof.
@@ -403,14 +403,14 @@ Section DeriveProofs.
       destruct (aget k l) eqn:G; [|reflexivity]. exfalso. apply I. eapply aget_in_keys; eauto.
   Qed.
 
-  Theorem renewal_keeps r :
-    wf r -> wf (apply_updates r (renewal r)) /\ forall p, carries (apply_updates r (renewal r)) p <-> carries r p.
+  Theorem renewal_pinned_keeps r :
+    wf r -> wf (apply_updates r (renewal_pinned r)) /\ forall p, carries (apply_updates r (renewal_pinned r)) p <-> carries r p.
   Proof.
     intros [W1 [W2 [W3 [W4 W5]]]].
-    assert (S : forall k, aget k (ro_simple (apply_updates r (renewal r))) = match aget k (ro_simple r) with Some _ => Some (make_simple k) | None => None end).
-    { intro k. unfold apply_updates, RoaDerive.renewal. simpl. apply (ins_all_renew (fun k _ => make_simple k)). exact W4. }
-    assert (G : forall a, aget a (ro_aggr (apply_updates r (renewal r))) = match aget a (ro_aggr r) with Some i => Some (make_aggr a (ri_auths i)) | None => None end).
-    { intro a. unfold apply_updates, RoaDerive.renewal. simpl. apply (ins_all_renew (fun a i => make_aggr a (ri_auths i))). exact W5. }
+    assert (S : forall k, aget k (ro_simple (apply_updates r (renewal_pinned r))) = match aget k (ro_simple r) with Some _ => Some (make_simple k) | None => None end).
+    { intro k. unfold apply_updates, RoaDerive.renewal_pinned. simpl. apply (ins_all_renew (fun k _ => make_simple k)). exact W4. }
+    assert (G : forall a, aget a (ro_aggr (apply_updates r (renewal_pinned r))) = match aget a (ro_aggr r) with Some i => Some (make_aggr a (ri_auths i)) | None => None end).
+    { intro a. unfold apply_updates, RoaDerive.renewal_pinned. simpl. apply (ins_all_renew (fun a i => make_aggr a (ri_auths i))). exact W5. }
     split.
     - split.
       + destruct W1 as [Z|Z]; [left|right]; apply aget_nil_all; intro k; [rewrite S|rewrite G]; rewrite Z; reflexivity.
@@ -429,40 +429,8 @@ Section DeriveProofs.
         * right. exists a, (make_aggr a (ri_auths i)). split; [rewrite G, H; reflexivity|exact Hp].
   Qed.
 
-  (** Across any history of derivations and renewals, starting from a class without ROAs: the invariant holds and
-      after every derivation the ROAs say exactly what is configured and held (shrink-then-regrow while aggregated,
-      mode switches at the thresholds, emptying and refilling included, since [routes] and [cert] are arbitrary
-      at every step); a renewal changes nothing of that. *)
-  Theorem roas_exact_history deagg agg steps : forall r r',
-    wf r -> rsteps_run asn_of res_of simple_name aggr_name sign deagg agg r steps = Some r' -> wf r'.
-  Proof.
-    unfold rsteps_run. induction steps as [|s steps IH]; intros r r' W H; simpl in H; [inv H; exact W|].
-    destruct (rstep_run asn_of res_of simple_name aggr_name sign deagg agg r s) as [r1|] eqn:E.
-    - apply (IH r1); [|exact H]. destruct s as [routes cert|]; simpl in E.
-      + destruct (create_updates r routes cert deagg agg) as [u|] eqn:C; inv E. apply (roas_exact _ _ _ _ _ _ W C).
-      + inv E. apply renewal_keeps. exact W.
-    - exfalso. clear -H. induction steps as [|s' steps IH]; simpl in H; [discriminate|auto].
-  Qed.
-  Theorem roas_history_total deagg agg steps r :
-    rsteps_run asn_of res_of simple_name aggr_name sign deagg agg r steps <> None.
-  Proof.
-    unfold rsteps_run. revert r. induction steps as [|s steps IH]; intro r; simpl; [discriminate|].
-    destruct s as [routes cert|]; simpl.
-    - destruct (create_updates r routes cert deagg agg) as [u|] eqn:C; [apply IH|]. exfalso. eapply create_updates_total; eauto.
-    - apply IH.
-  Qed.
-  Theorem roas_exact_last deagg agg steps routes cert r r' :
-    wf r -> rsteps_run asn_of res_of simple_name aggr_name sign deagg agg r (steps ++ [SDerive routes cert]) = Some r' ->
-    forall p, carries r' p <-> (In p routes /\ held res_of cert p = true).
-  Proof.
-    intros W H. unfold rsteps_run in H. rewrite fold_left_app in H. simpl in H.
-    fold (rsteps_run asn_of res_of simple_name aggr_name sign deagg agg r steps) in H.
-    destruct (rsteps_run asn_of res_of simple_name aggr_name sign deagg agg r steps) as [r1|] eqn:E; [|discriminate].
-    simpl in H. destruct (create_updates r1 routes cert deagg agg) as [u|] eqn:C; inv H.
-    apply (roas_exact r1 routes cert deagg agg u); [|exact C]. eapply roas_exact_history; eauto.
-  Qed.
-  (** The repaired renewal (proposal for F04c): invariant kept, and the payloads afterwards are exactly the payloads
-      before that the certificate of the signing key holds. *)
+  (** The renewal of a key-roll activation (code of record since the repair of F04c): invariant kept, and the payloads
+      afterwards are exactly the payloads before that the certificate of the NEW key holds. *)
   Notation renewal_fixed := (renewal_fixed res_of simple_name aggr_name sign).
   Notation held := (held res_of).
 
@@ -561,6 +529,38 @@ Section DeriveProofs.
           split; [|exact I]. apply FA. exists i. split; [exact G|]. split; [|reflexivity]. intro Z. rewrite Z in I. exact I.
   Qed.
 
+  (** Across any history of derivations and renewals, starting from a class without ROAs: the invariant holds and
+      after every derivation the ROAs say exactly what is configured and held (shrink-then-regrow while aggregated,
+      mode switches at the thresholds, emptying and refilling included, since [routes] and [cert] are arbitrary
+      at every step); a renewal under any certificate keeps the invariant. *)
+  Theorem roas_exact_history deagg agg steps : forall r r',
+    wf r -> rsteps_run asn_of res_of simple_name aggr_name sign deagg agg r steps = Some r' -> wf r'.
+  Proof.
+    unfold rsteps_run. induction steps as [|s steps IH]; intros r r' W H; simpl in H; [inv H; exact W|].
+    destruct (rstep_run asn_of res_of simple_name aggr_name sign deagg agg r s) as [r1|] eqn:E.
+    - apply (IH r1); [|exact H]. destruct s as [routes cert|ncert]; simpl in E.
+      + destruct (create_updates r routes cert deagg agg) as [u|] eqn:C; inv E. apply (roas_exact _ _ _ _ _ _ W C).
+      + inv E. apply renewal_fixed_exact. exact W.
+    - exfalso. clear -H. induction steps as [|s' steps IH]; simpl in H; [discriminate|auto].
+  Qed.
+  Theorem roas_history_total deagg agg steps r :
+    rsteps_run asn_of res_of simple_name aggr_name sign deagg agg r steps <> None.
+  Proof.
+    unfold rsteps_run. revert r. induction steps as [|s steps IH]; intro r; simpl; [discriminate|].
+    destruct s as [routes cert|ncert]; simpl.
+    - destruct (create_updates r routes cert deagg agg) as [u|] eqn:C; [apply IH|]. exfalso. eapply create_updates_total; eauto.
+    - apply IH.
+  Qed.
+  Theorem roas_exact_last deagg agg steps routes cert r r' :
+    wf r -> rsteps_run asn_of res_of simple_name aggr_name sign deagg agg r (steps ++ [SDerive routes cert]) = Some r' ->
+    forall p, carries r' p <-> (In p routes /\ held cert p = true).
+  Proof.
+    intros W H. unfold rsteps_run in H. rewrite fold_left_app in H. simpl in H.
+    fold (rsteps_run asn_of res_of simple_name aggr_name sign deagg agg r steps) in H.
+    destruct (rsteps_run asn_of res_of simple_name aggr_name sign deagg agg r steps) as [r1|] eqn:E; [|discriminate].
+    simpl in H. destruct (create_updates r1 routes cert deagg agg) as [u|] eqn:C; inv H.
+    apply (roas_exact r1 routes cert deagg agg u); [|exact C]. eapply roas_exact_history; eauto.
+  Qed.
   (** The objects the API reports for a payload are exactly the class's ROA objects that carry it - and every one of
       them is among the products the class hands to the published-object store ([roa_objects], L2). *)
   Theorem api_reports_repo_objects r p o :
@@ -705,21 +705,52 @@ Example roas_exact_nonvacuous :
   end.
 Proof. vm_compute. auto. Qed.
 
-(** F04c: payload 3 needs atom 1. The class holds atoms {0,1}; the key roll renews everything under the new key,
-    whose certificate holds atom 0 only: payload 3 stays published (over-claiming). A derivation under the same
-    certificate would have dropped it. *)
+(** F04c, regression witnesses. Payload 3 needs atom 1. The class holds atoms {0,1}; the key roll renews under the
+    new key, whose certificate holds atom 0 only.  The originally pinned renewal left payload 3 published
+    (over-claiming); the repaired renewal (code of record) drops it, as a derivation under that certificate does. *)
 Example renewal_overclaims :
-  match ex_run [SDerive [1; 3] 3; SRenew] with
-  | Some r => payloads r = [1; 3] /\ held ex_res 1 3 = false
-  | None => False
-  end
-  /\ match ex_run [SDerive [1; 3] 3; SDerive [1; 3] 1] with Some r => payloads r = [1] | None => False end.
-Proof. vm_compute. auto. Qed.
-
-(** With the repair proposed for F04c the same history leaves nothing outside the new certificate. *)
-Example renewal_fixed_no_overclaim :
   match ex_run [SDerive [1; 3] 3] with
-  | Some r => payloads (apply_updates r (renewal_fixed ex_res id id ex_sign 1 r)) = [1]
+  | Some r => payloads (apply_updates r (renewal_pinned id id ex_sign r)) = [1; 3] /\ held ex_res 1 3 = false
   | None => False
   end.
-Proof. vm_compute. reflexivity. Qed.
+Proof. vm_compute. auto. Qed.
+
+Example renewal_fixed_no_overclaim :
+  match ex_run [SDerive [1; 3] 3; SRenew 1] with Some r => payloads r = [1] | None => False end
+  /\ match ex_run [SDerive [1; 3] 3; SDerive [1; 3] 1] with Some r => payloads r = [1] | None => False end
+  /\ match ex_run [SDerive [1; 2; 3; 11] 3; SRenew 1] with        (* aggregated: AS 64512 keeps 1 and 2, loses 3 *)
+     | Some r => payloads r = [1; 2; 11] /\ map fst (ro_simple r) = []
+     | None => False
+     end.
+Proof. vm_compute. auto. Qed.
+
+(** * ASPA objects and router certificates at key-roll activation (since the repair of F04c) *)
+Lemma renew_filtered_get {V} (keep : N -> bool) (f : N -> V -> V) (o : list (N * V)) k v :
+  aget k (rem_all (map fst (filter (fun '(c, _) => negb (keep c)) o))
+                  (ins_all (map (fun '(c, i) => (c, f c i)) (filter (fun '(c, _) => keep c) o)) o)) = Some v ->
+  keep k = true /\ In k (map fst o).
+Proof.
+  rewrite aget_rem_all.
+  destruct (nmem k (map fst (filter (fun '(c, _) => negb (keep c)) o))) eqn:R; [discriminate|]. apply nmem_false in R.
+  set (upd := map (fun '(c, i) => (c, f c i)) (filter (fun '(c, _) => keep c) o)).
+  destruct (in_dec N.eq_dec k (map fst upd)) as [U|U].
+  - intros _. subst upd. apply in_map_iff in U. destruct U as [[c w] [E U]]. simpl in E. subst c.
+    apply in_map_iff in U. destruct U as [[c i] [E U]]. inv E. apply filter_In in U. destruct U as [U Q].
+    split; [exact Q|]. apply (in_map fst) in U. exact U.
+  - rewrite aget_ins_all_notin by exact U. intro G. pose proof (aget_some_in _ _ _ G) as I.
+    destruct (keep k) eqn:Q; [split; [reflexivity|apply (in_map fst) in I; exact I]|].
+    exfalso. apply R. apply in_map_iff. exists (k, v). split; [reflexivity|]. apply filter_In. split; [exact I|]. rewrite Q. reflexivity.
+Qed.
+
+Theorem aspa_renewal_contained ares_of sign cert o c i :
+  aget c (aspa_apply o (aspa_renewal ares_of sign cert o)) = Some i -> aheld ares_of cert c = true.
+Proof.
+  unfold aspa_apply, aspa_renewal. simpl. intro H.
+  apply (renew_filtered_get (aheld ares_of cert) (fun c i => mkAI (ai_providers i) (sign c (ai_providers i)))) in H. tauto.
+Qed.
+Theorem bgp_renewal_contained kres_of sign cert o k v :
+  aget k (bgp_apply o (bgp_renewal kres_of sign cert o)) = Some v -> bheld kres_of cert k = true.
+Proof.
+  unfold bgp_apply, bgp_renewal. simpl. intro H.
+  apply (renew_filtered_get (bheld kres_of cert) (fun k _ => sign k)) in H. tauto.
+Qed.
